@@ -1099,8 +1099,19 @@ ex_schnorr!(ex_gls254, gls254, "gls254", [0xFFu8; 32], |c: &[u8]| {
 
 fn ex_x25519(n: &mut Net, out: &mut RunOut) {
     use crrl::x25519::{x25519, x25519_base};
-    let a: [u8; 32] = n.rng.bytes(32).try_into().unwrap();
-    let b: [u8; 32] = n.rng.bytes(32).try_into().unwrap();
+    // private scalars: random, or all-zero / all-ones / a single bit (clamping and the ladder's first and last steps)
+    let mut sc = |n: &mut Net| -> [u8; 32] {
+        let mut v: [u8; 32] = n.rng.bytes(32).try_into().unwrap();
+        match n.t.usize(8) {
+            0 => v = [0u8; 32],
+            1 => v = [0xFFu8; 32],
+            2 => { v = [0u8; 32]; let e = n.t.usize(256); v[e / 8] = 1 << (e % 8); }
+            _ => {}
+        }
+        v
+    };
+    let a = sc(n);
+    let b = sc(n);
     let pa = x25519_base(&a);
     let pb = x25519_base(&b);
     out.ev(format_args!("x25519 pa={} pb={}", hex(&pa), hex(&pb)));
@@ -1125,8 +1136,18 @@ fn ex_x25519(n: &mut Net, out: &mut RunOut) {
 
 fn ex_x448(n: &mut Net, out: &mut RunOut) {
     use crrl::x448::{x448, x448_base};
-    let a: [u8; 56] = n.rng.bytes(56).try_into().unwrap();
-    let b: [u8; 56] = n.rng.bytes(56).try_into().unwrap();
+    let mut sc = |n: &mut Net| -> [u8; 56] {
+        let mut v: [u8; 56] = n.rng.bytes(56).try_into().unwrap();
+        match n.t.usize(8) {
+            0 => v = [0u8; 56],
+            1 => v = [0xFFu8; 56],
+            2 => { v = [0u8; 56]; let e = n.t.usize(448); v[e / 8] = 1 << (e % 8); }
+            _ => {}
+        }
+        v
+    };
+    let a = sc(n);
+    let b = sc(n);
     let pa = x448_base(&a);
     let pb = x448_base(&b);
     out.ev(format_args!("x448 pa={} pb={}", hex(&pa), hex(&pb)));
@@ -1370,12 +1391,36 @@ macro_rules! split_call {
         $out.ev(format_args!(" split_vartime returned: {}", r.is_some()));
     };
     (false, $name:expr, $out:expr, $k:expr) => {};
+    (valid256, $name:expr, $out:expr, $k:expr) => {
+        // 256-bit scalar fields: which split comes back is one of several admissible values, *that it is a split*
+        // is not: k = (c0 + a*2^128) / (c1 + b*2^128) for some a, b in -2..=2 with a non-zero denominator
+        // (the documented contract). The boolean is transcript material; k = 0 is documented to give (0, 1).
+        let r = g!($out, concat!("call.", $name, ".Scalar_split_vartime"), hex(&$k.encode()), $k.split_vartime());
+        if let Some((c0, c1)) = r {
+            let mut tb = [0u8; 32];
+            tb[16] = 1;
+            let t128 = Scalar::decode_reduce(&tb);
+            let (s0, s1) = (Scalar::from_i128(c0), Scalar::from_i128(c1));
+            let mut valid = 0u32;
+            for a in -2i32..=2 {
+                for b in -2i32..=2 {
+                    let num = s0 + Scalar::from_i32(a) * t128;
+                    let den = s1 + Scalar::from_i32(b) * t128;
+                    valid |= ($k * den).equals(num) & !den.iszero();
+                }
+            }
+            let zero_case = if $k.iszero() != 0 { format!(" zero -> ({}, {})", c0, c1) } else { String::new() };
+            $out.ev(format_args!(" split_vartime valid {:#x}{}", valid, zero_case));
+        } else {
+            $out.ev(format_args!(" split_vartime returned: false"));
+        }
+    };
 }
 
-ex_helper!(ex_helper_ed25519, ed25519, "ed25519", 32, true);
-ex_helper!(ex_helper_p256, p256, "p256", 32, true);
-ex_helper!(ex_helper_secp256k1, secp256k1, "secp256k1", 32, true);
-ex_helper!(ex_helper_ristretto255, ristretto255, "ristretto255", 32, true);
+ex_helper!(ex_helper_ed25519, ed25519, "ed25519", 32, valid256);
+ex_helper!(ex_helper_p256, p256, "p256", 32, valid256);
+ex_helper!(ex_helper_secp256k1, secp256k1, "secp256k1", 32, valid256);
+ex_helper!(ex_helper_ristretto255, ristretto255, "ristretto255", 32, valid256);
 ex_helper!(ex_helper_ed448, ed448, "ed448", 56, true);
 ex_helper!(ex_helper_decaf448, decaf448, "decaf448", 56, true);
 
@@ -1388,17 +1433,19 @@ fn ex_helper_jq(n: &mut Net, out: &mut RunOut) {
             let mut b = vec![0u8; 40];
             b[e / 8] = 1u8 << (e % 8);
             let base = Scalar::decode_reduce(&b);
-            let k = match n.t.usize(5) {
+            let k = match n.t.usize(7) {
                 0 => base,
                 1 => -base,
                 2 => Scalar::ONE / base,
                 3 => -(Scalar::ONE / base),
+                4 => base - base,
+                5 => base - Scalar::ONE,
                 _ => base + Scalar::ONE,
             };
             let kd = n.field(out, &k.encode());
             let k2 = Scalar::decode(&kd).unwrap_or(k);
-            let r = g!(out, concat!("call.", $name, ".Scalar_split_vartime"), hex(&k2.encode()), { let _ = k2.split_vartime(); });
-            out.ev(format_args!("{} split_vartime({}) returned: {}", $name, hex(&k2.encode()), r.is_some()));
+            out.ev(format_args!("{} split_vartime({})", $name, hex(&k2.encode())));
+            split_call!(valid256, $name, out, k2);
         }};
     }
     one!(jq255e, "jq255e");
